@@ -174,6 +174,9 @@ def lifecycle_ddl() -> str:
     return open(bootstrap.src("packages/llama-agents-dbos/src/llama_agents/dbos/_store/sqlite/migrations/0001_init.sql")).read()
 
 
+_PRISTINE_DELETE: Any = None
+
+
 class DbosStack:
     """ServerRuntimeDecorator(DBOSIdleReleaseDecorator(TickPersistenceDecorator(BasicRuntime))) - the in-process
     BasicRuntime stands in for DBOSRuntime; the dbos library is a two-function stand-in bound to it."""
@@ -203,7 +206,13 @@ class DbosStack:
         self.idle = dbos_idle.DBOSIdleReleaseDecorator(self.persistence, store=store, idle_timeout=idle_timeout, lifecycle_lock=lambda: self.lock)
         self.runtime = server_runtime.ServerRuntimeDecorator(self.idle, store=store)
         self.service = service_mod._WorkflowService(runtime=self.runtime, store=store)
-        orig_delete = dbos_standin.DBOS.delete_workflow_async.__func__
+        # the stand-in's own function, captured once: executions re-bind DBOS.delete_workflow_async to their stack, and
+        # chaining to the previous execution's binding would grow one call deeper per execution (RecursionError after
+        # ~1000 executions in one worker process, swallowed by _do_resume's try/except)
+        global _PRISTINE_DELETE
+        if _PRISTINE_DELETE is None:
+            _PRISTINE_DELETE = dbos_standin.DBOS.delete_workflow_async.__func__
+        orig_delete = _PRISTINE_DELETE
 
         async def delete(cls: Any, run_id: str, *a: Any, **kw: Any) -> None:
             await orig_delete(cls, run_id)
